@@ -18,8 +18,9 @@ def shift_profile(FA, f):
     """Constants of the shift / mask arithmetic of one function: absolute shift amounts, per-field steps
     (constant multipliers inside a shift amount) and low-bit masks."""
     prof = {'abs_shl': set(), 'abs_shr': set(), 'step_shl': set(), 'step_shr': set(), 'masks': set()}
-    for spec in FA.specs(f):
-        F = FA.fn(f, spec)
+    for g in FA.with_closures(f):
+      for spec in FA.specs(g):
+        F = FA.fn(g, spec)
         F.dom()
         for bi, b in enumerate(F.blocks):
             if bi not in F.reach:
@@ -48,8 +49,9 @@ def shift_profile(FA, f):
                             prof['step_' + op.lower()].add(1 << amt[3][1])
                 if op == 'BitAnd':
                     for o in (rv['a'], rv['b']):
-                        if 'c' in o and o.get('val') is not None:
-                            v = int(o['val'])
+                        ot = strip_casts(norm(F.operand_term(o)))
+                        if isinstance(ot, tuple) and ot and ot[0] == 'const' and isinstance(ot[1], int):
+                            v = ot[1]
                             if v > 3 and (v & (v + 1)) == 0:
                                 prof['masks'].add(v)
     return prof
@@ -490,6 +492,8 @@ def rule_SMP(FA):
                             other = a[2] if a[1] == ('const', 0) else a[1]
                             o2 = _resolve_consts_l(FA, other)
                             if o2[0] == 'bin' and o2[1] == 'Rem' and o2[3] == c:
+                                guarded_push = True
+                            if o2[0] == 'bin' and o2[1] == 'BitAnd' and ('const', c[1] - 1) in (o2[2], o2[3]):
                                 guarded_push = True
             if not guarded_push:
                 continue
